@@ -1,0 +1,88 @@
+//go:build verif
+
+package httpserver
+
+import (
+	"bytes"
+	"net"
+	"net/http"
+
+	"github.com/tmpim/casket/caskettls"
+)
+
+// Test-only exports for the /verif harness (property C19). Add-only; compiled
+// only with the "verif" build tag. Thin wrappers around the unexported
+// ClientHello parser, the interception heuristics, getVersion, and
+// constructors for clientHelloConn / tlsHandler around caller-supplied
+// connections and hello infos.
+
+// VerifC19ParseRawClientHello exposes parseRawClientHello.
+func VerifC19ParseRawClientHello(data []byte) caskettls.ClientHelloInfo {
+	return caskettls.ClientHelloInfo(parseRawClientHello(data))
+}
+
+// VerifC19LooksLike exposes the looksLike* heuristics and advertisesHeartbeatSupport.
+func VerifC19LooksLike(which string, info caskettls.ClientHelloInfo) bool {
+	raw := rawHelloInfo(info)
+	switch which {
+	case "firefox":
+		return raw.looksLikeFirefox()
+	case "chrome":
+		return raw.looksLikeChrome()
+	case "edge":
+		return raw.looksLikeEdge()
+	case "safari":
+		return raw.looksLikeSafari()
+	case "tor":
+		return raw.looksLikeTor()
+	case "heartbeat":
+		return raw.advertisesHeartbeatSupport()
+	}
+	panic("VerifC19LooksLike: unknown heuristic " + which)
+}
+
+// VerifC19AssertPresenceAndOrdering exposes assertPresenceAndOrdering.
+func VerifC19AssertPresenceAndOrdering(required, candidate []uint16, requiredIsSubset bool) bool {
+	return assertPresenceAndOrdering(required, candidate, requiredIsSubset)
+}
+
+// VerifC19GetVersion exposes getVersion.
+func VerifC19GetVersion(ua, softwareName string) float64 { return getVersion(ua, softwareName) }
+
+// VerifC19NewHelloConn wraps c in a clientHelloConn attached to a fresh
+// tlsHelloListener (as tlsHelloListener.Accept does, minus tls.Server) and
+// returns it with an accessor for the info recorded for c's remote address.
+func VerifC19NewHelloConn(c net.Conn) (net.Conn, func() (caskettls.ClientHelloInfo, bool)) {
+	l := newTLSListener(nil, nil)
+	hc := &clientHelloConn{Conn: c, listener: l, buf: new(bytes.Buffer)}
+	get := func() (caskettls.ClientHelloInfo, bool) {
+		l.helloInfosMu.RLock()
+		defer l.helloInfosMu.RUnlock()
+		info, ok := l.helloInfos[c.RemoteAddr().String()]
+		return caskettls.ClientHelloInfo(info), ok
+	}
+	return hc, get
+}
+
+// VerifC19TLSHandler builds a tlsHandler in front of next whose listener has
+// the given hello infos recorded (keyed by remote address).
+func VerifC19TLSHandler(next http.Handler, infos map[string]caskettls.ClientHelloInfo) http.Handler {
+	l := newTLSListener(nil, nil)
+	for k, v := range infos {
+		l.helloInfos[k] = rawHelloInfo(v)
+	}
+	return &tlsHandler{next: next, listener: l}
+}
+
+// VerifC19HelloInfoOf returns what a running Server's TLS listener has recorded
+// for a remote address (the map tlsHandler.ServeHTTP consults).
+func VerifC19HelloInfoOf(s *Server, remoteAddr string) (caskettls.ClientHelloInfo, bool) {
+	h, ok := s.Server.Handler.(*tlsHandler)
+	if !ok || h.listener == nil {
+		return caskettls.ClientHelloInfo{}, false
+	}
+	h.listener.helloInfosMu.RLock()
+	defer h.listener.helloInfosMu.RUnlock()
+	info, ok := h.listener.helloInfos[remoteAddr]
+	return caskettls.ClientHelloInfo(info), ok
+}
